@@ -86,6 +86,8 @@ pub fn backend_case(case: &Value, mode: &str, rep: &mut Report) {
     let rq = case["rq"].as_array().and_then(|a| a.get(0)).map(exp_of);
     let w = exp_of(&case["w"]);
     let seeks: Vec<Snap> = case["seek"].as_array().unwrap().iter().map(exp_of).collect();
+    let exts: Vec<Snap> = case["ext"].as_array().unwrap().iter().map(exp_of).collect();
+    let ext_words = |n: usize| -> Vec<u32> { [7u32, 8, 7][..n].to_vec() };
     let rem_s = case["remS"].as_u64().unwrap() as usize;
     let rem_q = case["remQ"].as_u64().unwrap() as usize;
     let space = case["space"].as_u64().unwrap() as usize;
@@ -97,6 +99,7 @@ pub fn backend_case(case: &Value, mode: &str, rep: &mut Report) {
               let snap = |res: u64, b: &Vec<u32>| (res, b.clone(), b.len());
               let mut b = mk(); let res = rd(ReadWords::<u32, Stack>::read(&mut b)); cmp!(rep, case, ty, "read (stack)", snap(res, &b), rs);
               let mut b = mk(); WriteWords::write(&mut b, 7).unwrap(); cmp!(rep, case, ty, "write(7)", snap(OK, &b), w);
+              for (i, e) in exts.iter().enumerate() { let mut b = mk(); WriteWords::extend_from_iter(&mut b, ext_words(i + 1).into_iter()).unwrap(); cmp!(rep, case, ty, format!("extend_from_iter({} words)", i + 1), snap(OK, &b), *e); }
               for (p, e) in seeks.iter().enumerate() { let mut b = mk(); let res = if b.seek(p).is_ok() { OK } else { REFUSED }; cmp!(rep, case, ty, format!("seek({})", p), snap(res, &b), *e); }
               for far in FAR { let mut b = mk(); let ok = b.seek(buf.len().wrapping_add(far)).is_ok(); cmpn!(rep, case, ty, format!("seek(len + {}) accepted", far), (ok, b.clone()), (false, buf.clone())); }
               let b = mk(); cmpn!(rep, case, ty, "remaining()", BoundedReadWords::<u32, Stack>::remaining(&b), rem_s); cmpn!(rep, case, ty, "pos()", b.pos(), pos);
@@ -140,10 +143,12 @@ pub fn backend_case(case: &Value, mode: &str, rep: &mut Report) {
                 macro_rules! with_b { ($b:ident, $body:expr) => {{ let mut store = buf.clone(); let _ = &mut store; #[allow(unused_mut)] let mut $b = $mk(&mut store); $body }} }
                 if rev {
                     with_b!(c, { let mut b = Reverse(c); let res = match WriteWords::write(&mut b, 7u32) { Ok(()) => OK, Err(BoundedWriteError::OutOfSpace) => FULL }; cmp!(rep, case, ty, "write(7)", (res, sl(b.0.buf()), b.0.pos()), w); });
+                    for (i, e) in exts.iter().enumerate() { with_b!(c, { let mut b = Reverse(c); let res = match WriteWords::extend_from_iter(&mut b, ext_words(i + 1).into_iter()) { Ok(()) => OK, Err(BoundedWriteError::OutOfSpace) => FULL }; cmp!(rep, case, ty, format!("extend_from_iter({} words)", i + 1), (res, sl(b.0.buf()), b.0.pos()), *e); }); }
                     with_b!(c, { let b = Reverse(c); cmpn!(rep, case, ty, "space_left()", BoundedWriteWords::<u32>::space_left(&b), space); cmpn!(rep, case, ty, "is_full()", BoundedWriteWords::<u32>::is_full(&b), space == 0);
                         let back = b.into_reversed(); cmpn!(rep, case, ty, "into_reversed()", (sl(back.buf()), back.pos()), rev_exp.clone()); });
                 } else {
                     with_b!(b, { let res = match WriteWords::write(&mut b, 7u32) { Ok(()) => OK, Err(BoundedWriteError::OutOfSpace) => FULL }; cmp!(rep, case, ty, "write(7)", (res, sl(b.buf()), b.pos()), w); });
+                    for (i, e) in exts.iter().enumerate() { with_b!(b, { let res = match WriteWords::extend_from_iter(&mut b, ext_words(i + 1).into_iter()) { Ok(()) => OK, Err(BoundedWriteError::OutOfSpace) => FULL }; cmp!(rep, case, ty, format!("extend_from_iter({} words)", i + 1), (res, sl(b.buf()), b.pos()), *e); }); }
                     with_b!(b, { cmpn!(rep, case, ty, "space_left()", BoundedWriteWords::<u32>::space_left(&b), space); cmpn!(rep, case, ty, "is_full()", BoundedWriteWords::<u32>::is_full(&b), space == 0);
                         let r = b.into_reversed(); cmpn!(rep, case, ty, "into_reversed()", (sl(r.0.buf()), r.0.pos()), rev_exp.clone()); });
                 }
